@@ -355,3 +355,13 @@ def wrappers(chk):
     okc = len(call) == 1 and [unparse(x) for x in call[0].args] == ['intdata', 'boxsize', '_posout', '_velout']
     chk.check(okc, 'C04-R7', BP, 'unpack_rvint', 'kernel call argument order', 'intdata, boxsize, _posout, _velout',
               f'kernel called as {[unparse(x) for x in call[0].args] if call else None}', node=fn)
+    # a preallocated output reaches the kernel as a VIEW of the caller's memory: an operation that may copy (reshape without copy=False,
+    # ascontiguousarray, astype, ...) makes the kernel decode into a temporary that is dropped while N is still returned
+    from ..core.idioms import supplied_output_reaches
+    if call:
+        for P_, pos_ in (('posout', 2), ('velout', 3)):
+            if pos_ < len(call[0].args):
+                okv_, why_ = supplied_output_reaches(fn, P_, call[0].args[pos_])
+                chk.check(okv_, 'C04-R7', BP, 'unpack_rvint', f'a supplied {P_} reaches the kernel as a view of the caller\'s array (never a possible copy)', why_,
+                          f'{why_}: for a layout that cannot be viewed as (-1, 3) the kernel fills a temporary, the caller\'s array stays unwritten and the particle count is '
+                          'still returned (the .view() + shape assignment raised instead)', node=fn)
